@@ -280,6 +280,11 @@ def check(ctx):
     rule_cumulative(ctx)
     rule_diff(ctx)
     rule_arg(ctx)
+    # a tuple of dimensions is grouped by flatten(dims, insert=0) before the function is applied: flatten's order / splice / progress rules (C11)
+    from . import c11
+    from ..report import Renamed
+    ctx.rule('R8', 'flatten (grouping of a tuple of dimensions): contiguity guard, shared insertion point, C-order reshape', 2)
+    c11.rule_flatten(Renamed(ctx, {'*': 'R8'}))
     ctx.not_decided += ["tie and NaN behaviour of NumPy's argmin/argmax", 'numerical differences', 'np.diff semantics']
     ctx.trusted += ['np.diff / np.concatenate / np.unravel_index semantics']
     return EXPLANATION
